@@ -414,7 +414,13 @@ func stability(c *drv.Ctx, bin string, seed int64, idx int) error {
 		return err
 	}
 	defer func() { w.Kill() }()
-	wd, err := mixed.New(w, r, mixed.Opts{Tag: fmt.Sprintf("s%d", idx)})
+	// every second history concentrates on two or three data types, so that their rarer operations (schema documents,
+	// renumber, roi delete, ...) recur on both sides of a commit within one history
+	opts := mixed.Opts{Tag: fmt.Sprintf("s%d", idx)}
+	if idx%2 == 1 {
+		opts.Types = [][]string{{"nj", "kv"}, {"lm", "ann"}, {"roi", "img", "kv"}, {"nj", "lm"}}[(idx/2)%4]
+	}
+	wd, err := mixed.New(w, r, opts)
 	if err != nil {
 		return err
 	}
@@ -554,7 +560,7 @@ func run(c *drv.Ctx) error {
 		seed := c.Rand.Int63()
 		run1(func() error { return gate(c, bin, seed, mode, scanned) })
 	}
-	ns := c.N(4, 60)
+	ns := c.N(6, 60)
 	sem := make(chan struct{}, 6)
 	for i := 0; i < ns; i++ {
 		i := i
